@@ -114,11 +114,27 @@ KF_C17_first_run_side_effects(G) ==
   \* lies deeper (get_task_sequence is one level deep) or is staging
   /\ \A a \in Members(G, "rerun") : Fin(G, a).stale_min_depth >= 2
 
+(* S20: the value of an output variable that concurrent branches write is taken from the terminal record *)
+(* that was created (started) last, not from the one that completed last; a pause delays the start of a   *)
+(* successor, so the paused run and its twin - same reports, both succeeded, same executions and errors -  *)
+(* differ in exactly such outputs                                                                          *)
+KF_C09_concurrent_output_by_start_order(G) ==
+  /\ G.kind = "pause" /\ ~ControlTainted(G.def)
+  /\ \A p \in Members(G, "paused"), t \in Members(G, "twin") :
+        /\ Fin(G, p).wf = "succeeded" /\ Fin(G, t).wf = "succeeded"
+        /\ Fin(G, p).execd = Fin(G, t).execd /\ ToSet(Fin(G, p).errs) = ToSet(Fin(G, t).errs)
+        /\ DOMAIN Fin(G, p).out = DOMAIN Fin(G, t).out
+        /\ \A k \in 1..Len(G.def.output) :
+              LET o == G.def.output[k][1] IN
+              (o \in DOMAIN Fin(G, p).out /\ Fin(G, p).out[o] # Fin(G, t).out[o]) =>
+                 DepVar(G.def.output[k][2]) \cap Tainted(G.def) # {}
+
 GroupSignatures(G) ==
   (IF G.kind = "inspect" /\ G.expect.cat = "context" /\ G.expect.pos \in {"rwhen", "rcount", "rdelay"}
    THEN {"KF_C15_retry_context_unchecked"} ELSE {}) \cup
   (IF G.kind = "order" /\ KF_C07_late_arrival_after_fire(G) THEN {"KF_C07_late_arrival_after_fire"} ELSE {}) \cup
   (IF G.kind = "pause" /\ KF_C07_late_arrival_pause(G) THEN {"KF_C07_late_arrival_after_fire"} ELSE {}) \cup
+  (IF KF_C09_concurrent_output_by_start_order(G) THEN {"KF_C09_concurrent_output_by_start_order"} ELSE {}) \cup
   (IF KF_C17_first_run_side_effects(G) THEN {"KF_C17_first_run_side_effects"} ELSE {}) \cup
   (IF KF_C17_partial_rerun_succeeds(G) THEN {"KF_C17_partial_rerun_succeeds"} ELSE {}) \cup
   (IF G.kind = "rerun" /\ KF_C07_late_arrival_pause(G) THEN {"KF_C07_late_arrival_after_fire"} ELSE {}) \cup
